@@ -378,14 +378,42 @@ func (e *Engine) loopEnter(fr *Frame, st *State, l *Loop) {
 	// havoc what the loop may write
 	ws := newWriteSet()
 	e.blocksWrites(fr, e.loopBlocksSorted(l), ws, fr.depth, map[*ssa.Function]bool{})
+	var autoFrame []string
 	if ws.all {
 		st.havocAll()
 		e.note(fmt.Sprintf("loop %d of %s: whole heap havocked (%s)", l.Ordinal, fnKey, strings.Join(ws.why, "; ")))
 	} else {
+		var ks []string
 		for k := range ws.keys {
+			ks = append(ks, k)
+		}
+		sort.Strings(ks)
+		for _, k := range ks {
+			// components the function's own frame does not allow it to change are preserved by every loop:
+			// proved at entry and at the back edge, assumed after the havoc
+			if e.frameProtected(k) {
+				if _, known := heapSorts[k]; known {
+					g := e.frameGoal(st, k)
+					e.emit(&Obligation{Kind: "inv-init", Fn: fnKey, Label: fmt.Sprintf("loop-%d:auto-frame:%s", l.Ordinal, shortHeapKey(k)), PC: st.pc, Goal: g, Src: "frame of the function holds at loop entry for " + k, Trace: st.trace})
+					autoFrame = append(autoFrame, k)
+				}
+			}
 			st.havocKey(k)
 		}
 	}
+	st.rebaseAlloc()
+	// create the post-havoc symbols now so that their well-formedness bound is the allocation base of this iteration
+	if !ws.all {
+		for k := range ws.keys {
+			if srt, known := heapSorts[k]; known {
+				st.heapGet(k, srt)
+			}
+		}
+	}
+	for _, k := range autoFrame {
+		st.assume(e.frameGoal(st, k))
+	}
+	l.autoFrame = autoFrame
 	var cells []int
 	for c := range ws.cells {
 		cells = append(cells, c)
@@ -464,14 +492,43 @@ func (e *Engine) havocVal(st *State, old Val, t types.Type) Val {
 }
 
 func (e *Engine) loopBackEdge(fr *Frame, st *State, l *Loop) {
+	fnKey := funcKey(fr.fn)
+	for _, k := range l.autoFrame {
+		e.emit(&Obligation{Kind: "inv-step", Fn: fnKey, Label: fmt.Sprintf("loop-%d:auto-frame:%s", l.Ordinal, shortHeapKey(k)), PC: st.pc, Goal: e.frameGoal(st, k), Src: "frame of the function is preserved by the loop body for " + k, Trace: st.trace})
+	}
 	if l.Spec == nil {
 		return
 	}
-	fnKey := funcKey(fr.fn)
 	for i, inv := range l.Spec.Invs {
 		env := e.invEnv(fr, st, l)
 		g := env.evalBool(inv.E)
 		e.emit(&Obligation{Kind: "inv-step", Fn: fnKey, Label: fmt.Sprintf("loop-%d:%s", l.Ordinal, orStr(inv.Label, fmt.Sprint(i+1))),
 			PC: st.pc, Goal: g, Src: inv.Src, Line: inv.Line, Trace: st.trace})
 	}
+}
+
+// frameProtected: the contract of the function under verification has a modifies clause that does not name k.
+func (e *Engine) frameProtected(k string) bool {
+	if e.frame == nil || e.frame.all {
+		return false
+	}
+	return !e.frame.keys[k]
+}
+
+// frameGoal: pre-existing objects (other than those named object-wise by modifies) have their entry content in k.
+func (e *Engine) frameGoal(st *State, k string) *Term {
+	sortK := heapSorts[k]
+	cur := st.heapGet(k, sortK)
+	entry := e.entry.heapGet(k, sortK)
+	if strings.HasPrefix(k, "G:") || strings.HasPrefix(k, "GV:") {
+		return Eq(cur, entry)
+	}
+	r := BoundVar("fr_r", SInt)
+	cond := And(Gt(r, IntLit(0)), Lt(r, alloc0()))
+	for _, o := range e.frame.objs {
+		if o.key == k {
+			cond = And(cond, Ne(r, o.ref))
+		}
+	}
+	return Forall([]*Term{r}, Implies(cond, Eq(Select(cur, r), Select(entry, r))), Select(cur, r))
 }
